@@ -80,7 +80,7 @@ elif confirmed:
                 lines = [l for l in r.stdout.splitlines() if "violating cases" in l or l.startswith("INCONCLUSIVE")]
                 _old = meta["checks"].get("%s:%s" % (c, tier))
                 _hist = (_old.get("previous_verdicts", []) + [_old["verdict"]]) if _old else []
-                meta["checks"]["%s:%s" % (c, tier)] = {"previous_verdicts": _hist, "exit": r.returncode, "verdict": {0: "missed", 1: "caught", 2: "inconclusive"}.get(r.returncode, "?"), "summary": (lines[-1].strip() if lines else "")[:400]}
+                meta["checks"]["%s:%s" % (c, tier)] = {"previous_verdicts": _hist, "exit": r.returncode, "verdict": ({0: "missed", 1: "caught", 2: "inconclusive"}.get(r.returncode, "?") if (r.returncode != 1 or "VIOLATION property=" in r.stdout) else "error: exit 1 without a VIOLATION line"), "summary": (lines[-1].strip() if lines else "")[:400]}
                 if r.returncode == 1:
                     break
     finally:
